@@ -152,7 +152,7 @@ PROPS = {
 
 TIERS = {
     "quick": dict(paths_per_cfg=1500, random_execs=2500, emit="state"),
-    "thorough": dict(paths_per_cfg=60000, random_execs=40000, emit="transition"),
+    "thorough": dict(paths_per_cfg=30000, random_execs=30000, emit="transition"),
 }
 
 
